@@ -3,7 +3,9 @@
    quotes / strconv.Unquote), model/WatchMode.v (text file, development-mode lookup, HasChanged with the skeleton
    comparison of commit 75525d5, a compiled template as a list of statements run by a machine with arbitrary
    opaque statements, the skeleton of generated text and the generated file as a program of lines),
-   model/QuoteGo.v (strconv.IsPrint from gen/Tables16.v). *)
+   model/QuoteGo.v (strconv.IsPrint from gen/Tables16.v), model/WatchHandler.v (what the event handler remembers
+   between the events of a watch session - the hash guarding the write of the text file, the previous generator
+   output - and the text file on disk). *)
 From Coq.Strings Require Import Byte String.
 From Coq Require Import List Arith NArith Bool.
 Import ListNotations.
@@ -277,6 +279,112 @@ Theorem C16_code_decision_sound : forall (St : Type) (sem : sink -> bytes -> byt
   exec St sem ev_str ev_bool code lk_normal fuel (ops_of_code c') pc s.
 Proof. exact code_decision_sound. Qed.
 Print Assumptions C16_code_decision_sound.
+
+(* ---------- the event handler over a whole watch session (model/WatchHandler.v) ----------
+   The theorems above read the text file of the LAST version.  Which file is on disk is decided by the handler: it
+   writes the file only when the sha256 of strings.Join(Literals, LF) differs from the hash it remembers for that
+   file name, and it lives as long as the session.  hfile = (remembered hash, remembered generator output, file on
+   disk); handle = one generation; run1 = a session on one template; run = events of several templates interleaved.
+   The hash is an arbitrary function.  collision_free H hash zero ts says: on the texts ts it has no collision and
+   is never the zero array (the value the map answers for a new name); text_of g = text_file (g_literals g). *)
+From V Require Import model.WatchHandler proofs.WatchHandlerProof.
+
+(* after EVERY non-empty session, whatever edits it consists of (edit-and-revert chains included): the file on disk
+   is the text file of the latest generation, and the handler remembers that generation and the hash of that file *)
+Theorem C16_handler_disk_current : forall (H : Type) (hash : bytes -> H) (zero : H) (heqb : H -> H -> bool),
+  (forall a b, heqb a b = true <-> a = b) ->
+  forall (S : Type) (skel_eqb : S -> S -> bool) (gs : list (gen_output S)) (d : gen_output S), gs <> [] ->
+  collision_free H hash zero (map (text_of S) gs) ->
+  let st := fst (run1 H hash heqb S skel_eqb (h_new H zero S) gs) in
+  h_prev st = Some (last gs d) /\ h_disk st = Some (text_file (g_literals (last gs d))) /\
+  h_hash st = hash (text_file (g_literals (last gs d))).
+Proof. exact handler_disk_current. Qed.
+Print Assumptions C16_handler_disk_current.
+
+(* GenerateResult.TextUpdated of the last event of a session: true for the first generation, afterwards true exactly
+   when the text file differs from the one of the generation before - a file that has to change is never left as it is *)
+Theorem C16_text_updated_iff : forall (H : Type) (hash : bytes -> H) (zero : H) (heqb : H -> H -> bool),
+  (forall a b, heqb a b = true <-> a = b) ->
+  forall (S : Type) (skel_eqb : S -> S -> bool) (pre : list (gen_output S)) (g d : gen_output S) (a0 : hresult),
+  collision_free H hash zero (map (text_of S) (pre ++ [g])) ->
+  r_text (last (snd (run1 H hash heqb S skel_eqb (h_new H zero S) (pre ++ [g]))) a0) = true <->
+  (pre = [] \/ text_file (g_literals (last pre d)) <> text_file (g_literals g)).
+Proof. exact text_updated_iff. Qed.
+Print Assumptions C16_text_updated_iff.
+
+(* several templates through one handler, events interleaved in any order: what the handler holds for template k, k's
+   file on disk and the answers to k's events are those of k's own events alone *)
+Theorem C16_handler_files_independent : forall (H : Type) (hash : bytes -> H) (heqb : H -> H -> bool)
+  (S : Type) (skel_eqb : S -> S -> bool) (K : Type) (keqb : K -> K -> bool), (forall a b, keqb a b = true <-> a = b) ->
+  forall (evs : list (K * gen_output S)) (m : hmap H S K) (k : K),
+  fst (run H hash heqb S skel_eqb K keqb m evs) k = fst (run1 H hash heqb S skel_eqb (m k) (events_of S K keqb k evs)) /\
+  answers_of S K keqb k evs (snd (run H hash heqb S skel_eqb K keqb m evs)) =
+  snd (run1 H hash heqb S skel_eqb (m k) (events_of S K keqb k evs)).
+Proof. exact run_frame. Qed.
+Print Assumptions C16_handler_files_independent.
+
+(* SESSION SOUNDNESS, with the file that is really on disk.  Generations pre, then (o, u), then rest, through a fresh
+   handler.  If every answer AFTER the one for (o, u) is "no recompilation" - the program that is running was compiled
+   from u, at the handler's last recompile request (or at the start) - then at the end of the session there is a text
+   file on disk, and reading it the running program renders, from every position, in every state, with every fuel,
+   exactly what a fresh build of the last version renders. *)
+Theorem C16_session_sound : forall (H : Type) (hash : bytes -> H) (zero : H) (heqb : H -> H -> bool),
+  (forall a b, heqb a b = true <-> a = b) ->
+  forall (St : Type) (sem : sink -> bytes -> bytes) (ev_str : St -> bytes -> bytes) (ev_bool : St -> bytes -> bool)
+  (code : bytes -> nat -> St -> option (St * bytes * nat))
+  (pre : list (gen_opts * list uop)) (o : gen_opts) (u : list uop) (rest : list (gen_opts * list uop)),
+  let gs := gen_outs (pre ++ (o, u) :: rest) in
+  let r := run1 H hash heqb (list uop) skel_eqb (h_new H zero (list uop)) gs in
+  collision_free H hash zero (map (text_of (list uop)) gs) ->
+  forallb (fun a => negb (r_go a)) (skipn (Datatypes.S (length pre)) (snd r)) = true ->
+  lits_ok (snd (last rest (o, u))) = true ->
+  exists file, h_disk (fst r) = Some file /\
+    forall (fuel pc : nat) (s : St),
+    exec St sem ev_str ev_bool code (lk_dev file) fuel (compile u) pc s =
+    exec St sem ev_str ev_bool code lk_normal fuel (compile (snd (last rest (o, u)))) pc s.
+Proof. exact session_sound. Qed.
+Print Assumptions C16_session_sound.
+
+(* REGRESSION: the write must be guarded by a hash of the JOINED text.  With the hash taken of the literals streamed
+   one after another (handle_by concat), moving an expression through static text -  p l { s } q  ->  p { s } l q  -
+   keeps the concatenation, the literal count, the expression list and the skeleton: the second generation is answered
+   (GoUpdated, TextUpdated) = (false, false), the file on disk stays the FIRST version's, differs from the second
+   version's, and the running program renders other bytes than a fresh build.  For every hash function that is never
+   the zero array, every writer semantics that writes some value non-empty, every meaning of other statements. *)
+Theorem C16_unseparated_hash_refuted : forall (H : Type) (hash : bytes -> H) (zero : H) (heqb : H -> H -> bool),
+  (forall a b, heqb a b = true <-> a = b) ->
+  forall (St : Type) (sem : sink -> bytes -> bytes) (ev_bool : St -> bytes -> bool)
+  (code : bytes -> nat -> St -> option (St * bytes * nat)),
+  (forall t, hash t <> zero) ->
+  forall (x : bytes) (c0 : byte) (rest : bytes) (s : St), sem SText x = c0 :: rest -> exists l : byte,
+  let r := run1_by H hash heqb (list uop) skel_eqb (@concat byte) (h_new H zero (list uop)) [gen_out o0 (wm l); gen_out o0 (wm' l)] in
+  map r_go (snd r) = [true; false] /\ map r_text (snd r) = [true; false] /\ lits_ok (wm' l) = true /\
+  h_disk (fst r) = Some (text_file (lits (wm l))) /\ text_file (lits (wm l)) <> text_file (lits (wm' l)) /\
+  exec St sem (fun _ _ => x) ev_bool code (lk_dev (text_file (lits (wm l)))) 8 (compile (wm l)) 0 s <>
+  exec St sem (fun _ _ => x) ev_bool code lk_normal 8 (compile (wm' l)) 0 s.
+Proof. exact unseparated_hash_refuted. Qed.
+Print Assumptions C16_unseparated_hash_refuted.
+
+(* non-vacuity, with the instance the extracted model runs (the hash of a text is the text; zero = None): an edit
+   that moves { name } into the next list item and its revert.  No recompilation, the file is rewritten both times
+   and ends as the first version's; the hypotheses on the hash hold; with the unseparated hash nothing is rewritten *)
+Example C16_ex_session :
+  let A := [ULit (bs "<li>Logged in as "); UExpr SText (bs "name"); ULit (bs "</li><li></li>")] in
+  let B := [ULit (bs "<li>Logged in as </li><li>"); UExpr SText (bs "name"); ULit (bs "</li>")] in
+  let gs := gen_outs [(o0, A); (o0, B); (o0, A)] in
+  let r := run1 (option bytes) id_hash oeqb (list uop) skel_eqb (h_new (option bytes) None (list uop)) gs in
+  map r_go (snd r) = [true; false; false] /\ map r_text (snd r) = [true; true; true] /\
+  h_disk (fst r) = Some (bs "<li>Logged in as " ++ [x0a] ++ bs "</li><li></li>") /\
+  h_disk (fst (run1 (option bytes) id_hash oeqb (list uop) skel_eqb (h_new (option bytes) None (list uop)) (gen_outs [(o0, A); (o0, B)])))
+    = Some (bs "<li>Logged in as </li><li>" ++ [x0a] ++ bs "</li>") /\
+  map r_text (snd (run1_by (option bytes) id_hash oeqb (list uop) skel_eqb (@concat byte) (h_new (option bytes) None (list uop)) gs)) = [true; false; false] /\
+  collision_free (option bytes) id_hash None (map (text_of (list uop)) gs) /\
+  (forall a b, oeqb a b = true <-> a = b) /\ (forall t, id_hash t <> None).
+Proof.
+  split; [vm_compute; reflexivity|]. split; [vm_compute; reflexivity|]. split; [vm_compute; reflexivity|].
+  split; [vm_compute; reflexivity|]. split; [vm_compute; reflexivity|].
+  split; [apply id_hash_collision_free|]. split; [exact oeqb_spec|discriminate].
+Qed.
 
 (* ---------- the literals of the WHOLE generator model (model/Gen.v: generate = generator.Generate, tied to the
    real generator byte for byte by the C02/C07 harness) ---------- *)
